@@ -88,6 +88,7 @@ pub fn areas() -> Vec<&'static str> {
         "c18",
         "c19",
         "c20",
+        "tcploop",
     ]
 }
 
